@@ -6,6 +6,7 @@ package traefikoidc_test
 //   C09: keyless analysis of every emitted value, and a tamper matrix (a non-authentic value reads like an absent cookie).
 
 import (
+	"crypto/hmac"
 	"crypto/sha256"
 	"crypto/cipher"
 	"crypto/aes"
@@ -14,6 +15,9 @@ import (
 	"encoding/base64"
 	"encoding/gob"
 	"fmt"
+	"hash"
+	"crypto/sha1"
+	"crypto/sha512"
 	mrand "math/rand"
 	"net/http"
 	"net/http/httptest"
@@ -196,6 +200,21 @@ func keylessCheck(prop, name, value string, secrets []string, replay func() inte
 		layers = append(layers, string(b))
 		parts := strings.SplitN(string(b), "|", 3)
 		if len(parts) == 3 {
+			// the authenticator recomputed under every MAC key a party WITHOUT the deployment's key can compute (all-zero keys of the
+			// usual lengths, public constants, other deployments' keys): if one of them reproduces the cookie's tag, that party can
+			// authenticate cookies of its own making under this name
+			{
+				tag := []byte(parts[2]) // (securecookie appends the raw tag bytes)
+				for _, hk := range publicMacKeys() {
+					for _, h := range []func() hash.Hash{sha256.New, sha512.New, sha1.New} {
+						m := hmac.New(h, hk)
+						m.Write([]byte(name + "|" + parts[0] + "|" + parts[1]))
+						if hmac.Equal(m.Sum(nil), tag) {
+							T.oracle(prop, "the cookie's authenticator can be computed without the deployment's key (a modified or self-made cookie can be re-authenticated)", M{"cookie": name, "mac_key_len": len(hk)}, replay())
+						}
+					}
+				}
+			}
 			if body, err := base64.URLEncoding.DecodeString(parts[1]); err == nil {
 				layers = append(layers, string(body))
 				// would a gob decoder read it?
@@ -285,6 +304,29 @@ func publicBlockKeys() [][]byte {
 	}
 	out = append(out, make([]byte, 32))
 	publicKeysOnce = out
+	return out
+}
+
+var publicMacOnce [][]byte
+
+// publicMacKeys: HMAC keys computable without the deployment's session key
+func publicMacKeys() [][]byte {
+	if publicMacOnce != nil {
+		return publicMacOnce
+	}
+	var out [][]byte
+	for _, n := range []int{0, 1, 16, 24, 32, 48, 64, len(sessKey), len(sessKey) + 1, 128} {
+		out = append(out, make([]byte, n))
+	}
+	for _, k := range append([]string{"traefikoidc", "secret", "0123456789abcdef0123456789abcdef"}, otherSessKeys[0], otherSessKeys[3], otherSessKeys[4]) {
+		out = append(out, []byte(k))
+		h := sha256.Sum256([]byte(k))
+		out = append(out, h[:])
+		if bk := deriveBlockKeyOf(k); bk != nil {
+			out = append(out, bk)
+		}
+	}
+	publicMacOnce = out
 	return out
 }
 
